@@ -145,9 +145,8 @@ def main():
     # C07: the exit sites of the TCP connection event loop -> coq/gen/ConnExits.v (sibling script)
     sys.path.insert(0, os.path.dirname(os.path.abspath(__file__)))
     import gen_conn_exits
-    table, miss = gen_conn_exits.generate(REPO)
-    if table:
-        vals["CONN_EXIT_SITES"] = len(table)
+    counts, miss = gen_conn_exits.generate(REPO)
+    vals.update(counts)      # CONN_EXIT_SITES, WS_EXIT_SITES, QUIC_EXIT_SITES
     missing += list(miss)
     str_names = []
     for name, path, rx in STR_CONSTS:
